@@ -33,7 +33,11 @@ def replay_substitution(rep):
         r = bounded_more.substitution_check("quick", seed)
         if r["violations"]:
             return True, {"mode": "generated formulas x sub-term maps vs recursive definition / substitution lemma", "failure": r["violations"][0]}
-    return False, {"mode": "generated formulas x sub-term maps: nothing found"}
+    from native import bounded_round3
+    r = bounded_round3.interpretations_check("quick", 0)
+    if r["violations"]:
+        return True, {"mode": "formulas with interpreted functions evaluated against the functions read as given", "failure": r["violations"][0]}
+    return False, {"mode": "generated formulas x sub-term maps, interpreted functions: nothing found"}
 
 
 def replay_optimizer(rep):
@@ -231,4 +235,5 @@ def dispatch(rep):
         return replay_tracking(rep)
     if kind == "logic":
         return replay_logic(rep)
-    return False, {"mode": "no native replay handler for kind %r" % kind}
+    from native import replay_round3
+    return replay_round3.dispatch(rep)
